@@ -4,8 +4,9 @@ R-C15.1  first-match shape of OverloadedFunctionDef.check_call / synthesize_call
          over `self.func_ids` itself, in order; every variant is attempted (no
          continue/break/conditional skip); the attempt returns the variant's own
          check_call/synthesize_call result with the caller's arguments; only GuppyError is
-         suppressed; the no-match error is raised only after the loop.  The decorator builds
-         func_ids in argument order.  The two methods are siblings.
+         suppressed; the no-match error is raised only after the loop.  The two methods are siblings.
+         The decorator `_Guppy.overload` is interpreted on all orderings of 2 and 3 variants (and duplicates): the definition
+         it constructs gets exactly the ids of its arguments in argument order (c15_decorator.py).
 R-C15.2  attempts do not influence each other:
          (a) no function of the checker/definition packages mutates an argument *list*
              parameter in place or hands it back as its result;
@@ -134,22 +135,25 @@ def run(ctx: Ctx) -> None:
     # decorator builds the list in argument order
     dec = idx.method("_Guppy", "overload", "guppylang.decorator")
     ctx.saw("functions", dec.qualname)
-    loops = [n for n in walk_no_nested(dec.node) if isinstance(n, ast.For)]
-    ok = False
-    facts = {}
-    for l in loops:
-        apps = [c for st in l.body for c in ast.walk(st) if isinstance(c, ast.Call) and call_name(c) == "append" and dotted(c.func.value) == "func_ids"]
-        if apps:
-            src = ast.unparse(l.iter)
-            facts = {"iterates": src, "appends": [ast.unparse(a) for a in apps]}
-            ok = src in ("funcs", "list(funcs)") and len(apps) == 1 and ast.unparse(apps[0].args[0]) == f"{dotted(l.target)}.id"
-    rebinds = [ast.unparse(n) for n in walk_no_nested(dec.node) if isinstance(n, ast.Assign) and dotted(n.targets[0]) in ("funcs", "func_ids")
-               and not (isinstance(n.value, ast.List) and not n.value.elts) and ast.unparse(n.value) not in ("list(funcs)",)]
-    mutated = [ast.unparse(c) for c in calls_in(dec.node, nested=True) if call_name(c) in ("sort", "reverse") or (call_name(c) in ("sorted", "reversed", "set") and c.args and dotted(c.args[0]) in ("funcs", "func_ids"))]
-    passes = any(call_name(c) == "OverloadedFunctionDef" and any(dotted(a) == "func_ids" for a in c.args) for c in calls_in(dec.node, nested=True))
-    facts.update({"reorderings": rebinds + mutated, "passed_to_definition": passes})
-    ctx.check(ok and not rebinds and not mutated and passes, "R-C15.1", f"{dec.qualname}#variants-in-argument-order", dec.where, facts,
-              "the order of variants in the definition is not the order given to @guppy.overload")
+    from . import c15_decorator
+    if not c15_decorator.run(ctx):
+        # fallback: the shape of the loop that fills func_ids
+        loops = [n for n in walk_no_nested(dec.node) if isinstance(n, ast.For)]
+        ok = False
+        facts = {}
+        for l in loops:
+            apps = [c for st in l.body for c in ast.walk(st) if isinstance(c, ast.Call) and call_name(c) == "append" and dotted(c.func.value) == "func_ids"]
+            if apps:
+                src = ast.unparse(l.iter)
+                facts = {"iterates": src, "appends": [ast.unparse(a) for a in apps]}
+                ok = src in ("funcs", "list(funcs)") and len(apps) == 1 and ast.unparse(apps[0].args[0]) == f"{dotted(l.target)}.id"
+        rebinds = [ast.unparse(n) for n in walk_no_nested(dec.node) if isinstance(n, ast.Assign) and dotted(n.targets[0]) in ("funcs", "func_ids")
+                   and not (isinstance(n.value, ast.List) and not n.value.elts) and ast.unparse(n.value) not in ("list(funcs)",)]
+        mutated = [ast.unparse(c) for c in calls_in(dec.node, nested=True) if call_name(c) in ("sort", "reverse") or (call_name(c) in ("sorted", "reversed", "set") and c.args and dotted(c.args[0]) in ("funcs", "func_ids"))]
+        passes = any(call_name(c) == "OverloadedFunctionDef" and any(dotted(a) == "func_ids" for a in c.args) for c in calls_in(dec.node, nested=True))
+        facts.update({"reorderings": rebinds + mutated, "passed_to_definition": passes})
+        ctx.check(ok and not rebinds and not mutated and passes, "R-C15.1", f"{dec.qualname}#variants-in-argument-order", dec.where, facts,
+                  "the order of variants in the definition is not the order given to @guppy.overload")
 
     # ------------------------------------------------------------ R-C15.2 (a)
     n_funcs = 0
